@@ -141,6 +141,10 @@ def check_activation(w, r):
                 okwait = touts == [('self', 'delay')] and has_ev and len(elems) == 2
         if not okwait:
             bad = (pa, 'the activation process does not wait on any_of([timeout(self.delay), self.activate_fleet])')
+        if len(ys) > 1:
+            bad = bad or (pa, f'the activation cycle suspends a second time (`yield {ys[1].text}` at line {ys[1].line}): while it waits there neither the capacity '
+                              f'event nor the delay timer is observed, so a fleet filled during that wait does not depart and a loaded item can wait longer than '
+                              f'one delay period plus one round trip')
         sp = [i for i, e in enumerate(evs) if e.kind == 'spawn' and e.func == 'self.move_to_ready_items']
         for i in sp:
             guard = any(c.kind == 'cond' and not c.d.get('synthetic') and c.text == 'self.items' and c.polarity is True for c in evs[:i])
